@@ -2,6 +2,14 @@
 HOOK_COMMITS = ["0ed9dd5"]
 
 CHECKS = [
+    {"id": "C01",
+     "text": "RFC 7252 s3 and RFC 8323 s3.2 written as TLA+ encoding and parsing operators (specs/wire/CoapWire.tla); TLC proves parse(encode(m)) = m, prefix-is-short and tail-is-ignored on every bounded well-formed message (MC_CoapWire, ~3*10^5 messages), and judges records of the REAL Size/Encode/Decode of both coders through the raw and the pooled (fresh and recycled) API: the produced bytes must parse back to m under the independent RFC parser, the library decoder must return m and consume all bytes, Size = bytes written, every too-small buffer fails with the same size and intact canaries, and the named out-of-precondition messages are refused. Systematic class-boundary vectors (all option delta/length classes, stream length classes incl. 65805+) plus seeded random messages.",
+     "note": "Trusted: TLC, Json/IOUtils, the recorder. Memory beyond the buffer is observed by canaries, not proved. The canonical-bytes expectation (K01_Bytes) is conformance-only.",
+     "technique": "TLA+ reference codec + TLC record validation of real encoder/decoder calls"},
+    {"id": "C02",
+     "text": "The RFC reference parser of CoapWire.tla (three documented leniencies as named predicates) judges what the REAL datagram decoder, stream header pre-parser and stream decoder do with byte strings: every string up to length 4 (thorough 5) over a 10-symbol branch-covering alphabet per coder, every first byte x several lengths, every truncation and tail-extension of valid encodings, option-count/capacity and extended-field boundary vectors, stream length-field boundaries up to 2^32, and seeded mutations; through the raw API and pool.Message.UnmarshalWithDecoder on fresh, recycled and SetMessage{}-reset messages. Clauses: total (no panic, 3 s watchdog), accept/reject and fields agree, short-vs-reject agree, re-encodable, idempotent, no aliasing of the receive buffer.",
+     "note": "Trusted: TLC, Json/IOUtils, the recorder. Exhaustive only up to the small length; beyond it seeded mutation. Where two readings of the RFC are defensible (trailing bytes after a frame, reserved TKL in an incomplete header, frames >= 2^32) either outcome is accepted.",
+     "technique": "TLA+ reference parser + TLC record validation of real decoder calls"},
     {"id": "C19",
      "text": "RFC 7959 section 2.2 written as TLA+ operators (specs/wire/BlockOpt.tla); TLC proves the spec-level inverse theorems over the whole 24-bit domain, and judges records of the REAL EncodeBlockOption/DecodeBlockOption/SZX.Size: explicit boundary/stratified/seeded records one by one and position-weighted digests of every 4096-value chunk of the complete domain (all 2^24 decoder values, all 8*2^20*2 encoder triples; thorough also all 2^32 decoder inputs). The domain is finite, so complete enumeration is the right level.",
      "note": "Trusted: TLC, the Json/IOUtils community modules, the Go recorder (no oracle inside), digest collision resistance (two primes). Quick judges a seeded subset of chunk digests; thorough judges all.",
